@@ -34,7 +34,7 @@ Lemma delta_cells_spec metric alpha p e o n :
    end,
    if significant alpha p e then
      if b64_eq (m_mean n) (m_mean o) then 0
-     else if Bool.eqb (b64_lt (pct_delta (m_mean o) (m_mean n)) f_zero) (negb (beq metric s_speed))
+     else if Bool.eqb (b64_lt (m_mean n) (m_mean o)) (negb (beq metric s_speed))
           then 1 else -1
    else 0).
 Proof.
@@ -219,6 +219,22 @@ Section TablesProofs.
   Definition present_stats (unit cf : bytes) : list mstat :=
     concat (map (fun gb => match stat_of c (mkKey cf (fst gb) (snd gb) unit) with
                            | Some m => [m] | None => [] end) (all_benchmarks c)).
+
+  (** the geomean of a configuration ranges over all benchmarks of the
+      collection with statistics for the unit, shown in the table or not: a
+      statistic takes part iff its key has values *)
+  Lemma present_stats_all unit cf m :
+    In m (present_stats unit cf) <->
+    exists gb, In gb (all_benchmarks c) /\ stat_of c (mkKey cf (fst gb) (snd gb) unit) = Some m.
+  Proof.
+    unfold present_stats. rewrite in_concat. split.
+    - intros [l [Hl Hm]]. apply in_map_iff in Hl. destruct Hl as [gb [<- Hgb]].
+      exists gb. split; auto.
+      destruct (stat_of c (mkKey cf (fst gb) (snd gb) unit)) as [m'|]; cbn in Hm; [|contradiction].
+      destruct Hm as [->|[]]. reflexivity.
+    - intros [gb [Hgb E]]. exists [m]. split; [|now left].
+      apply in_map_iff. exists gb. rewrite E. auto.
+  Qed.
 
   Lemma nonzero_means_spec unit cf :
     nonzero_means c unit cf =
